@@ -126,12 +126,14 @@ static MPT_STRUCT(buffer) *_mpt_buffer_alloc_detach(MPT_STRUCT(buffer) *ptr, siz
 	next->_content_traits = traits;
 	
 	/* require content copy */
-	if (mpt_refcount_lower(&buf->_ref)) {
+	if (buf->_ref._val > 1) {
 		const MPT_STRUCT(buffer) *src = &buf->buf;
 		if (mpt_buffer_set(next, src->_content_traits, 0, src + 1, src->_used) < 0) {
 			_mpt_buffer_alloc_unref(next);
 			return 0;
 		}
+		/* release reference to shared data after successful copy only */
+		mpt_refcount_lower(&buf->_ref);
 	}
 	/* move data content */
 	else {
